@@ -14,6 +14,7 @@ Inductive verr :=
   | RangeProofError (i : nat) | RangeProofMissing (i : nat)
   | SurjectionProofVerificationError (i : nat) | SurjectionProofMissing (i : nat)
   | SpentTxOutError (i : nat) (e : txout_err) | TxOutError (i : nat) (e : txout_err)
+  | IssuanceTransactionInput (i : nat)      (* since 3c38a91 (C10 finding F21): an explicit issuance amount of zero *)
   | UtxoInputLenMismatch | BalanceCheckFailed.
 
 (* Asset::into_asset_gen / TxOut::get_asset_gen *)
@@ -49,20 +50,22 @@ Definition issuance_commits (i : txin) : oc verr (list gel * list gel) :=      (
       let* (dom, com) := acc in
       match fst e with
       | VNull => OVal (dom, com)
-      | VExp v => let gen := gH (snd e) in
+      | VExp v => if v =? 0 then OFail (IssuanceTransactionInput 0)      (* `if *v == 0 { return Err(IssuanceTransactionInput(i)) }`; *)
+                  else let gen := gH (snd e) in                          (* the input index is put in by verify_inputs (at_input)  *)
                   let* c := pedersen_unblinded v gen in
                   OVal (dom ++ [gen], com ++ [c])
       | VConf c => OVal (dom ++ [gH (snd e)], com ++ [c])
       end) arr (OVal ([], []))
   else OVal ([], []).
 
+Definition at_input (i : nat) (e : verr) : verr := match e with IssuanceTransactionInput _ => IssuanceTransactionInput i | _ => e end.
 (* first loop: for (i, inp) in self.input.iter().enumerate() *)
 Fixpoint verify_inputs (ins : list txin) (spent : list txout) (i : nat) : oc verr (list gel * list gel) :=
   match ins, spent with
   | inp :: ins', utxo :: spent' =>
       let* gen := map_err (SpentTxOutError i) (get_asset_gen utxo) in
       let* c := map_err (SpentTxOutError i) (get_value_commit utxo) in
-      let* (idom, icom) := issuance_commits inp in
+      let* (idom, icom) := map_err (at_input i) (issuance_commits inp) in
       let* (dom, com) := verify_inputs ins' spent' (S i) in
       OVal (gen :: idom ++ dom, c :: icom ++ com)
   | _, _ => OVal ([], [])
